@@ -449,6 +449,227 @@ pub fn c06(ctx: &mut Ctx) {
     }
 }
 
+
+// ------------------------------------------------------------------------------------------
+// big domains (2^20 .. 2^63): the constant polynomial
+// ------------------------------------------------------------------------------------------
+//
+// The reference prover materialises every layer, which stops at about 2^15 points. For the
+// constant polynomial c every layer is constant (c, 2^k·c, ...), every committed row is the same,
+// and a Merkle tree over identical leaves has one node value per depth: commitment and paths cost
+// O(height), so honest instances exist for every domain size the configuration allows, with query
+// indices far above 2^32.
+
+pub fn draw_big_shape(rng: &mut Rng) -> FriShape {
+    loop {
+        let n_inner = rng.range(5, 14) as usize;
+        let mut steps = vec![0u32];
+        for _ in 0..n_inner {
+            steps.push(rng.range(1, 4) as u32);
+        }
+        let log_last = rng.range(0, 10) as u32;
+        let blow = rng.range(1, 6) as u32;
+        let log_input = steps.iter().sum::<u32>() + log_last + blow;
+        if !(20..=63).contains(&log_input) {
+            continue;
+        }
+        let nf = match rng.below(4) {
+            0 => 0,
+            1 => 1000,
+            _ => rng.range(0, log_input as u64 + 2),
+        };
+        return FriShape { log_input, steps, log_last_bound: log_last, n_friendly: nf };
+    }
+}
+
+pub fn draw_big_queries(rng: &mut Rng, log_input: u32) -> Vec<u64> {
+    let n = 1u64 << log_input;
+    let mut v = Vec::new();
+    let k = rng.range(1, 10);
+    for _ in 0..k {
+        let q = match rng.below(8) {
+            0 => 0,
+            1 => n - 1,
+            2 => (1u64 << 32).wrapping_sub(1) % n,
+            3 => (1u64 << 32) % n,
+            4 => ((1u64 << 32) + rng.below(64)) % n,
+            5 => (n >> 1).wrapping_add(rng.below(4)) % n,
+            _ => rng.below(n),
+        };
+        v.push(q);
+        if rng.chance(1, 3) {
+            v.push(q ^ 1);
+        }
+    }
+    v.sort();
+    v.dedup();
+    v
+}
+
+/// Honest instance for the constant polynomial `c` on any shape; returns (call, transcript digest).
+pub fn build_constant_instance(rng: &mut Rng, shape: &FriShape, c: Felt, queries: &[u64]) -> (FriCall, Felt) {
+    let digest = rng.felt();
+    let mut t = RefTranscript::new(digest);
+    let mut roots = Vec::new();
+    let mut eval_points = Vec::new();
+    let mut layers = Vec::new();
+    let mut cur: Vec<u64> = queries.to_vec();
+    let mut value = c;
+    let mut log_size = shape.log_input;
+    for step in &shape.steps[1..] {
+        let w = 1u64 << step;
+        let height = log_size - step;
+        let row = vec![value; w as usize];
+        let (root, nodes) = models::RefTable::constant_root(&row, height, shape.n_friendly);
+        t.absorb(&[root]);
+        eval_points.push(t.squeeze());
+        roots.push(root);
+        let mut cosets: Vec<u64> = cur.iter().map(|q| q >> step).collect();
+        cosets.dedup();
+        let n_sibling = cosets.len() as u64 * w - cur.len() as u64;
+        layers.push((vec![value; n_sibling as usize], models::constant_auth(&nodes, height, &cosets)));
+        cur = cosets;
+        value *= models::pow2(*step as u64);
+        log_size -= step;
+    }
+    let mut last = vec![Felt::ZERO; 1usize << shape.log_last_bound];
+    last[0] = value;
+    t.absorb(&last);
+    let call = FriCall {
+        config: fri_config(shape),
+        roots,
+        eval_points,
+        last_layer: last,
+        queries: queries.iter().map(|q| Felt::from(*q)).collect(),
+        values: vec![c; queries.len()],
+        points: queries.iter().map(|q| models::query_point(*q, shape.log_input)).collect(),
+        layers,
+    };
+    (call, digest)
+}
+
+fn real_commit_points(call: &FriCall, digest: Felt) -> (Outcome, Option<Vec<Felt>>) {
+    let mk = || UnsentCommitment { inner_layers: call.roots.clone(), last_layer_coefficients: call.last_layer.clone() };
+    let cfg = call.config.clone();
+    let unsent = mk();
+    let r = monitor::guarded_val(50_000_000, move || {
+        let mut t = Transcript::new(digest);
+        let c = swiftness_fri::fri::fri_commit(&mut t, unsent, cfg);
+        (c.eval_points, *t.digest())
+    });
+    let mut pts = None;
+    if let Outcome::Accept(_) = &r.outcome {
+        let mut t = Transcript::new(digest);
+        pts = Some(swiftness_fri::fri::fri_commit(&mut t, mk(), call.config.clone()).eval_points);
+    }
+    (r.outcome, pts)
+}
+
+/// C06 on big domains: configuration valid, commit phase agrees with the reference transcript,
+/// the honest constant instance is accepted.
+pub fn c06_big(ctx: &mut Ctx) {
+    let scenario = "core.c06.big";
+    for p in ["fri.big.query-at-or-above-2^32", "fri.big.domain-above-2^40", "fri.big.query-zero", "fri.big.query-last"] {
+        ctx.stats.declare_probe(p);
+    }
+    let n_inst: u64 = if ctx.is_quick() { 400 } else { 6_000 };
+    for k in 0..n_inst {
+        if !ctx.mine(k) {
+            continue;
+        }
+        ctx.begin_run(scenario, k);
+        let mut rng = Rng::derive(ctx.seed, scenario, k);
+        let shape = draw_big_shape(&mut rng);
+        let queries = draw_big_queries(&mut rng, shape.log_input);
+        let c = if rng.chance(1, 8) { Felt::ZERO } else { rng.felt() };
+        let (call, digest) = build_constant_instance(&mut rng, &shape, c, &queries);
+        if queries.iter().any(|q| *q >= 1 << 32) {
+            ctx.stats.probe("fri.big.query-at-or-above-2^32");
+        }
+        if shape.log_input > 40 {
+            ctx.stats.probe("fri.big.domain-above-2^40");
+        }
+        if queries[0] == 0 {
+            ctx.stats.probe("fri.big.query-zero");
+        }
+        if *queries.last().unwrap() == (1u64 << shape.log_input) - 1 {
+            ctx.stats.probe("fri.big.query-last");
+        }
+        let sc = shape_class(&shape, queries.len());
+        let variant = ctx.variant.clone();
+        let mk_replay = |expect: &str, o: &Outcome| replay_envelope("C06", "core.c06", &variant, json!({"call": "fri_verify", "args": call.to_json(), "digest": hexf(&digest), "expect": expect, "expected_outcome": o.describe(), "extra": {"constant_polynomial": hexf(&c)}}));
+        let blow = shape.log_input - shape.log_degree_bound();
+        let cfg = call.config.clone();
+        let vo = monitor::guarded(1_000_000, || cfg.validate(Felt::from(blow as u64), Felt::from(shape.n_friendly))).outcome;
+        ctx.stats.evaluations += 1;
+        if !vo.is_accept() {
+            ctx.violation(&format!("C06|valid-config-rejected|{}", vo.class()), &format!("fri::Config::validate rejects a valid configuration: {} shape {sc}", vo.describe()), mk_replay("config-valid", &vo));
+            continue;
+        }
+        let (co, pts) = real_commit_points(&call, digest);
+        ctx.stats.evaluations += 1;
+        match pts {
+            Some(p) if p == call.eval_points => {}
+            Some(_) => {
+                ctx.violation("C06|eval-points-differ", &format!("fri_commit derived other evaluation points than the reference transcript; shape {sc}"), mk_replay("commit-points", &co));
+                continue;
+            }
+            None => {
+                ctx.violation(&format!("C06|honest-commit-failed|{}", co.class()), &format!("fri_commit failed on an honest instance: {} shape {sc}", co.describe()), mk_replay("commit-ok", &co));
+                continue;
+            }
+        }
+        let o = call.run_verify();
+        ctx.stats.evaluations += 1;
+        ctx.stats.messages_delivered += (call.roots.len() + call.last_layer.len() + call.values.len() + call.layers.iter().map(|(l, a)| l.len() + a.len()).sum::<usize>()) as u64;
+        ctx.stats.state(format!("big|in{}|q{}|{}", shape.log_input / 8 * 8, queries.len().min(8), o.class()));
+        if !o.is_accept() {
+            ctx.violation(&format!("C06|honest-rejected|{}", o.class()), &format!("honest FRI instance (constant polynomial, domain 2^{}) rejected: {} shape {sc} queries {queries:?}", shape.log_input, o.describe()), mk_replay("ok", &o));
+        }
+    }
+}
+
+/// C07 on big domains: every single fault of an honest constant instance is rejected.
+pub fn c07_big(ctx: &mut Ctx) {
+    let scenario = "core.c07.big";
+    let n_inst: u64 = if ctx.is_quick() { 64 } else { 2_500 };
+    for k in 0..n_inst {
+        if !ctx.mine(k) {
+            continue;
+        }
+        ctx.begin_run(scenario, k);
+        let mut rng = Rng::derive(ctx.seed, scenario, k);
+        let shape = draw_big_shape(&mut rng);
+        let queries = draw_big_queries(&mut rng, shape.log_input);
+        let c = rng.felt_nonzero();
+        let (call, digest) = build_constant_instance(&mut rng, &shape, c, &queries);
+        let sc = shape_class(&shape, queries.len());
+        let o = call.run_verify();
+        ctx.stats.evaluations += 1;
+        if !o.is_accept() {
+            ctx.stats.skip("base-not-accepted (C06's business)");
+            continue;
+        }
+        for (name, f) in fri_faults(&call, &mut rng, 2) {
+            // folding a constant does not involve the layer's challenge (the odd part is zero):
+            // a changed challenge is not visible on this base; it is covered on the small domains
+            if name.starts_with("eval-point") {
+                continue;
+            }
+            let fo = f.run_verify();
+            ctx.stats.evaluations += 1;
+            ctx.stats.messages_delivered += 1;
+            let kind = kind_of(&name);
+            ctx.stats.fired(&kind);
+            ctx.stats.state(format!("big|in{}|{kind}|{}", shape.log_input / 8 * 8, fo.class()));
+            if fo.is_accept() {
+                let rep = replay_envelope("C07", "core.c07", &ctx.variant, json!({"call": "fri_verify", "args": f.to_json(), "digest": hexf(&digest), "expect": "not_ok", "expected_outcome": fo.describe(), "extra": {"fault": name, "base": "constant polynomial on a big domain"}}));
+                ctx.violation(&format!("C07|fault-accepted|{kind}"), &format!("fault {name} accepted; shape {sc} (domain 2^{}) queries {queries:?}", shape.log_input), rep);
+            }
+        }
+    }
+}
+
 // ------------------------------------------------------------------------------------------
 // C07
 // ------------------------------------------------------------------------------------------
